@@ -12,6 +12,10 @@ import os
 import sys
 import time
 import traceback
+import os as _os, sys as _sys
+if _os.environ.get("PYTHONHASHSEED") != "0":      # deterministic VC text: set iteration order must not vary between runs
+    _os.environ["PYTHONHASHSEED"] = "0"
+    _os.execv(_sys.executable, [_sys.executable] + (["-m", "checks.run"] + _sys.argv[1:] if __name__ == "__main__" and _sys.argv[0].endswith("run.py") and __package__ else _sys.argv))
 
 ROOT = os.path.dirname(os.path.dirname(os.path.abspath(__file__)))
 sys.path.insert(0, ROOT)
